@@ -547,6 +547,129 @@ Proof.
   - repeat split; constructor.
 Qed.
 
+(* ------------------------------------------------------------------ the schedule channel *)
+
+Lemma extract_perm A n : forall (l : list A) y r, extract n l = Some (y, r) -> Permutation l (y :: r).
+Proof.
+  induction n as [|n IH]; intros [|x l] y r H; cbn [extract] in H; try discriminate.
+  - inversion H; subst. apply Permutation_refl.
+  - destruct (extract n l) as [[y' r']|] eqn:E; inversion H; subst.
+    + eapply Permutation_trans; [apply perm_skip, (IH _ _ _ E)|]. apply perm_swap.
+    + apply Permutation_refl.
+Qed.
+
+Lemma extract_none A n (l : list A) : extract n l = None -> l = [].
+Proof.
+  destruct l as [|x l]; [reflexivity|]. destruct n as [|n]; cbn [extract]; [discriminate|].
+  destruct (extract n l) as [[y r]|]; discriminate.
+Qed.
+
+(* a receive takes one of the pending values and leaves the others pending *)
+Lemma ch_recv_perm pick k c k' :
+  ch_recv pick k = Some (c, k') -> Permutation (ch_pending k) (c :: ch_pending k').
+Proof.
+  unfold ch_recv, ch_pending. destruct k as [b p]. cbn [buf parked].
+  destruct b as [|x b]; destruct (extract pick p) as [[y r]|] eqn:E; intros H; inversion H; subst; cbn [buf parked app].
+  - apply (extract_perm _ _ _ _ _ E).
+  - apply perm_skip. rewrite <- app_assoc. apply Permutation_app_head. cbn [app].
+    apply (extract_perm _ _ _ _ _ E).
+  - apply extract_none in E. subst p. rewrite !app_nil_r. apply Permutation_refl.
+Qed.
+
+Lemma ch_recv_none pick k : ch_recv pick k = None -> k = ch_empty.
+Proof.
+  unfold ch_recv. destruct k as [b p]. cbn [buf parked]. destruct b as [|x b]; [|discriminate].
+  destruct (extract pick p) as [[y r]|] eqn:E; [discriminate|]. intros _.
+  apply extract_none in E. now subst.
+Qed.
+
+Lemma ch_pending_nil k : ch_pending k = [] -> k = ch_empty.
+Proof.
+  destruct k as [b p]. unfold ch_pending. cbn [buf parked]. intros H.
+  apply app_eq_nil in H as [-> ->]. reflexivity.
+Qed.
+
+(* whatever the runtime's choices: the consumer receives every pending value exactly once
+   and leaves the channel empty, no goroutine parked *)
+Lemma ch_drain_perm picks : forall fuel k, fuel = length (ch_pending k) ->
+  Permutation (fst (ch_drain fuel picks k)) (ch_pending k) /\ snd (ch_drain fuel picks k) = ch_empty.
+Proof.
+  induction fuel as [|f IH]; intros k Hf; cbn [ch_drain].
+  - symmetry in Hf. apply length_zero_iff_nil in Hf. rewrite Hf. cbn [fst snd].
+    split; [constructor | now apply ch_pending_nil].
+  - destruct (ch_recv (picks f) k) as [[c k']|] eqn:R.
+    + pose proof (ch_recv_perm _ _ _ _ R) as Hp.
+      assert (Hl : f = length (ch_pending k')).
+      { apply Permutation_length in Hp. cbn [length] in Hp. lia. }
+      destruct (IH k' Hl) as [H1 H2]. destruct (ch_drain f picks k') as [r k'']. cbn [fst snd] in *.
+      split; [|exact H2]. apply Permutation_sym. eapply Permutation_trans; [exact Hp|].
+      apply perm_skip, Permutation_sym, H1.
+    + apply ch_recv_none in R. subst k. discriminate.
+Qed.
+
+Lemma ch_drain_with_perm picks k :
+  Permutation (fst (ch_drain_with picks k)) (ch_pending k) /\ snd (ch_drain_with picks k) = ch_empty.
+Proof. apply ch_drain_perm. reflexivity. Qed.
+
+Lemma ch_drain_all_spec k r k' : ch_drain_all k = (r, k') -> Permutation r (ch_pending k) /\ k' = ch_empty.
+Proof.
+  intros H. destruct (ch_drain_with_perm (fun _ => O) k) as [H1 H2].
+  unfold ch_drain_all in H. rewrite H in H1, H2. exact (conj H1 H2).
+Qed.
+
+(* a send adds its value to the pending ones: into the buffer or with a parked goroutine,
+   never nowhere *)
+Lemma ch_send_pending k c : Permutation (ch_pending (ch_send k c)) (ch_pending k ++ [c]).
+Proof.
+  unfold ch_send, ch_pending. destruct (Nat.ltb (length (buf k)) ch_cap); cbn [buf parked].
+  - rewrite <- !app_assoc. apply Permutation_app_head. apply Permutation_app_comm.
+  - rewrite app_assoc. apply Permutation_refl.
+Qed.
+
+Lemma ch_start_pending cs : forall k, Permutation (ch_pending (ch_start cs k)) (ch_pending k ++ cs).
+Proof.
+  unfold ch_start. induction cs as [|c cs IH]; intros k; cbn [fold_left].
+  - rewrite app_nil_r. apply Permutation_refl.
+  - eapply Permutation_trans; [apply IH|].
+    eapply Permutation_trans; [apply Permutation_app_tail, ch_send_pending|].
+    rewrite <- app_assoc. apply Permutation_refl.
+Qed.
+
+(* the jobs [cs] are started together (they reach their send in any order [cs']), nobody
+   receives meanwhile; then the consumer receives until nothing arrives: it gets what was
+   pending before and the string of every job started, each exactly once *)
+Lemma concurrent_all_delivered picks cs cs' k :
+  Permutation cs cs' ->
+  Permutation (fst (ch_drain_with picks (ch_start cs' k))) (ch_pending k ++ cs)
+  /\ snd (ch_drain_with picks (ch_start cs' k)) = ch_empty.
+Proof.
+  intros Hp. destruct (ch_drain_with_perm picks (ch_start cs' k)) as [H1 H2]. split; [|exact H2].
+  eapply Permutation_trans; [exact H1|]. eapply Permutation_trans; [apply ch_start_pending|].
+  apply Permutation_app_head, Permutation_sym, Hp.
+Qed.
+
+(* the sends block: of the jobs started while nobody receives, as many return as the buffer
+   has room for, every other one stays parked in its send *)
+Lemma ch_send_lengths k c : (length (buf k) <= ch_cap)%nat ->
+  length (buf (ch_send k c)) = Nat.min ch_cap (length (buf k) + 1)
+  /\ (length (buf (ch_send k c)) + length (parked (ch_send k c)) = length (buf k) + length (parked k) + 1)%nat.
+Proof.
+  unfold ch_send, ch_cap. intros H. destruct (Nat.ltb (length (buf k)) 1) eqn:E; cbn [buf parked]; rewrite ?app_length; cbn [length].
+  - apply Nat.ltb_lt in E. lia.
+  - apply Nat.ltb_ge in E. lia.
+Qed.
+
+Lemma ch_start_lengths cs : forall k, (length (buf k) <= ch_cap)%nat ->
+  length (buf (ch_start cs k)) = Nat.min ch_cap (length (buf k) + length cs)
+  /\ (length (buf (ch_start cs k)) + length (parked (ch_start cs k)) = length (buf k) + length (parked k) + length cs)%nat.
+Proof.
+  unfold ch_start. induction cs as [|c cs IH]; intros k H; cbn [fold_left length].
+  - unfold ch_cap in *. lia.
+  - destruct (ch_send_lengths k c H) as [H1 H2].
+    assert (H' : (length (buf (ch_send k c)) <= ch_cap)%nat) by (rewrite H1; apply Nat.le_min_l).
+    destruct (IH _ H') as [H3 H4]. unfold ch_cap in *. lia.
+Qed.
+
 (* ------------------------------------------------------------------ the whole system *)
 
 Fixpoint links_ok (hooks : list (list binding)) (en : list bool) (ls : list links) : Prop :=
@@ -772,6 +895,65 @@ Proof.
 Qed.
 
 
+(* ------------------------------------------------------------------ firings that wait for the consumer *)
+
+Lemma existsb_perm A (f : A -> bool) l l' : Permutation l l' -> existsb f l = existsb f l'.
+Proof.
+  induction 1 as [|x l l' _ IH|x y l|l l' l'' _ IH1 _ IH2]; cbn [existsb].
+  - reflexivity.
+  - now rewrite IH.
+  - destruct (f x), (f y); reflexivity.
+  - now rewrite IH1.
+Qed.
+
+Lemma existsb_ext_in A (f g : A -> bool) l : (forall x, f x = g x) -> existsb f l = existsb g l.
+Proof. intros H. induction l as [|x l IH]; [reflexivity|]. cbn [existsb]. now rewrite H, IH. Qed.
+
+Lemma is_nil_perm A (l l' : list A) : Permutation l l' -> is_nil l = is_nil l'.
+Proof. intros H. apply Permutation_length in H. destruct l, l'; try reflexivity; discriminate. Qed.
+
+Lemma existsb_flat_nil A B (f : A -> list B) l :
+  existsb (fun x => negb (is_nil (f x))) l = negb (is_nil (flat_map f l)).
+Proof.
+  induction l as [|x l IH]; [reflexivity|]. cbn [existsb flat_map]. rewrite IH.
+  destruct (f x); reflexivity.
+Qed.
+
+(* the strings [cs'] are received in any order: what one hook's controller answers *)
+Lemma tick_hook_burst bs e cs cs' : Permutation cs cs' ->
+  Permutation (snd (tick_hook cs' (links_of bs e))) (expected_burst bs e cs)
+  /\ fst (tick_hook cs' (links_of bs e)) = negb (is_nil (expected_burst bs e cs)).
+Proof.
+  intros Hp. rewrite tick_hook_eq. cbn [fst snd]. unfold expected_burst.
+  rewrite (flat_map_ext _ _ (fun c => handle_event_links bs e c)).
+  rewrite (existsb_ext_in _ _ _ _ (fun c => can_handle_links bs e c)).
+  split.
+  - apply Permutation_flat_map, Permutation_sym, Hp.
+  - rewrite existsb_flat_nil. f_equal. apply is_nil_perm, Permutation_flat_map, Permutation_sym, Hp.
+Qed.
+
+Lemma check_burst_ok cs cs' hooks : forall en ls,
+  Permutation cs cs' -> links_ok hooks en ls ->
+  check_burst cs hooks en (tick_all cs' ls) = true.
+Proof.
+  induction hooks as [|bs hr IH]; intros [|e er] [|m lr] Hp H; simpl in H; try contradiction; [reflexivity|].
+  destruct H as [H1 H2]. unfold tick_all. cbn [map check_burst].
+  fold (tick_all cs' lr). rewrite (IH _ _ Hp H2), andb_true_r.
+  unfold check_answer. destruct (nodupb (map b_id bs)) eqn:Nd; [|reflexivity].
+  apply nodupb_NoDup in Nd. rewrite (H1 Nd).
+  destruct (tick_hook_burst bs e cs cs' Hp) as [Hq Hf].
+  rewrite Hf, Bool.eqb_reflx. now apply is_perm_complete.
+Qed.
+
+Lemma tick_all_single c ls : tick_all [c] ls = map (fun m => (can_handle c m, handle_event c m)) ls.
+Proof.
+  unfold tick_all. apply map_ext. intros m. rewrite tick_hook_eq. cbn [existsb flat_map].
+  now rewrite orb_false_r, app_nil_r.
+Qed.
+
+Lemma fired_of_strings cr ns : fired_of cr ns = fired_strings cr ns.
+Proof. reflexivity. Qed.
+
 Definition Rel (i : input) (s : sys) (st : spec_state) : Prop :=
   Inv (valid_of (i_invalid i)) (s_sm s) (fst st) /\ links_ok (i_hooks i) (snd st) (s_links s).
 
@@ -779,58 +961,155 @@ Lemma nth_nil_default n : forall (hooks : list (list binding)),
   (length hooks <= n)%nat -> nth n hooks [] = [].
 Proof. intros hooks. apply nth_overflow. Qed.
 
+(* what a step does to the manager, the links and the channel *)
+Lemma step_sm_links i s o :
+  match o with
+  | OAdd _ _ | ORemove _ _ | OEnable _ | ODisable _ => True
+  | _ => s_sm (fst (sys_step i s o)) = s_sm s /\ s_links (fst (sys_step i s o)) = s_links s
+  end.
+Proof.
+  destruct o as [c id|c id|h|h|c|n| |ns| |]; cbn [sys_step]; try exact I; try (split; reflexivity).
+  - destruct (nth_error (cron (s_sm s)) (N.to_nat n)) as [[e c]|]; [|split; reflexivity].
+    destruct (ch_drain_all (s_ch s)) as [r k]. split; reflexivity.
+  - destruct (ch_drain_all (s_ch s)) as [r k]. split; reflexivity.
+  - destruct (ch_drain_all (s_ch s)) as [r k]. split; reflexivity.
+Qed.
+
+Lemma step_ch i s o :
+  s_ch (fst (sys_step i s o)) =
+  match o with
+  | OTick n => match nth_error (cron (s_sm s)) (N.to_nat n) with
+               | Some _ => snd (ch_drain_all (s_ch s))
+               | None => s_ch s
+               end
+  | OTickAll | ODrain => snd (ch_drain_all (s_ch s))
+  | OStart ns => ch_start (fired_strings (cron (s_sm s)) ns) (s_ch s)
+  | _ => s_ch s
+  end.
+Proof.
+  destruct o as [c id|c id|h|h|c|n| |ns| |]; cbn [sys_step]; try reflexivity.
+  - destruct (enable _ _ _) as [m s']. reflexivity.
+  - destruct (disable _ _) as [m s']. reflexivity.
+  - destruct (nth_error (cron (s_sm s)) (N.to_nat n)) as [[e c]|]; [|reflexivity].
+    destruct (ch_drain_all (s_ch s)) as [r k]. reflexivity.
+  - destruct (ch_drain_all (s_ch s)) as [r k]. reflexivity.
+  - destruct (ch_drain_all (s_ch s)) as [r k]. reflexivity.
+Qed.
+
 Lemma step_rel i s st o :
   Rel i s st -> Rel i (fst (sys_step i s o)) (spec_step (i_hooks i) st o).
 Proof.
-  intros [HI HL]. unfold Rel, spec_step. destruct o as [c id|c id|h|h|c|n|]; cbn [sys_step induced fst snd].
-  - split; [apply Inv_add, HI | exact HL].
-  - split; [apply Inv_remove, HI | exact HL].
-  - rewrite enable_split. cbn [fst snd s_sm s_links]. split.
+  intros [HI HL]. unfold Rel, spec_step. pose proof (step_sm_links i s o) as HS.
+  destruct o as [c id|c id|h|h|c|n| |ns| |].
+  5-10: destruct HS as [E1 E2]; rewrite E1, E2; cbn [induced fst snd fold_left]; split; assumption.
+  all: clear HS.
+  - cbn [sys_step induced fst snd fold_left s_sm s_links]. split; [apply Inv_add, HI | exact HL].
+  - cbn [sys_step induced fst snd fold_left s_sm s_links]. split; [apply Inv_remove, HI | exact HL].
+  - cbn [sys_step induced]. rewrite enable_split. cbn [fst snd s_sm s_links]. split.
     + apply Inv_fold, HI.
     + apply links_ok_set; [exact HL|]. intros Hn.
       rewrite (links_ok_nth _ _ _ _ HL Hn). now apply set_links_of.
-  - rewrite (disable_split (valid_of (i_invalid i))). cbn [fst snd s_sm s_links]. split.
+  - cbn [sys_step induced]. rewrite (disable_split (valid_of (i_invalid i))). cbn [fst snd s_sm s_links]. split.
     + apply Inv_fold, HI.
     + apply links_ok_set; [exact HL|]. intros Hn.
       rewrite (links_ok_nth _ _ _ _ HL Hn). apply del_links_of.
-  - split; assumption.
-  - destruct (nth_error (cron (s_sm s)) (N.to_nat n)) as [[e c]|]; split; assumption.
-  - split; assumption.
 Qed.
 
-Lemma check_cron_ok valid alphabet s reg f :
-  Inv valid s reg -> check_cron valid alphabet reg (mkObs (map (fun c => (c, entries s c)) alphabet) (cron s) f) = true.
+Lemma check_cron_ok valid alphabet s reg f r a b :
+  Inv valid s reg -> check_cron valid alphabet reg (mkObs (map (fun c => (c, entries s c)) alphabet) (cron s) f r a b) = true.
 Proof.
   intros HI. unfold check_cron. apply forallb_forall. intros c _. cbn [o_cron].
   change (count_fires c (cron s)) with (cron_count c s).
   rewrite (inv_count_exact valid s reg c HI). apply Nat.eqb_refl.
 Qed.
 
-Lemma P_from_holds i : forall ops s st, Rel i s st -> P_from i st ops (run_from i s ops) = true.
+Lemma perm_nil_l A (l : list A) : Permutation [] l -> l = [].
+Proof. apply Permutation_nil. Qed.
+Lemma perm_nil_r A (l : list A) : Permutation l [] -> l = [].
+Proof. intros H. apply Permutation_sym in H. now apply Permutation_nil. Qed.
+
+Lemma o_cron_observe i s f : o_cron (observe i s f) = cron (s_sm s).
+Proof. reflexivity. Qed.
+Lemma o_fire_observe i s f : o_fire (observe i s f) = fst f.
+Proof. reflexivity. Qed.
+Lemma check_cron_observe i s reg f :
+  Inv (valid_of (i_invalid i)) (s_sm s) reg -> check_cron (valid_of (i_invalid i)) (i_alphabet i) reg (observe i s f) = true.
+Proof. apply check_cron_ok. Qed.
+
+(* [pend] (what the Spec reads off the observations) against the channel of the model *)
+Lemma P_from_holds i : forall ops s st pend dirty stopped,
+  Rel i s st -> Permutation pend (ch_pending (s_ch s)) ->
+  P_from i st pend dirty stopped ops (run_from i s ops) = true.
 Proof.
-  induction ops as [|o ops IH]; intros s st HR; [reflexivity|].
-  cbn [run_from P_from]. pose proof (step_rel i s st o HR) as HR'.
-  destruct (sys_step i s o) as [s' f] eqn:Es. cbn [fst] in HR'.
-  rewrite (IH _ _ HR'), andb_true_r. destruct HR' as [HI' HL'].
-  unfold observe. rewrite (check_cron_ok _ _ _ _ _ HI'). cbn [andb].
-  destruct o as [c id|c id|h|h|c|n|]; try reflexivity.
-  - cbn [sys_step] in Es. inversion Es; subst. cbn [o_fire].
-    apply check_fire_ok. exact HL'.
-  - cbn [sys_step] in Es. cbn [o_cron o_fire].
-    destruct (nth_error (cron (s_sm s)) (N.to_nat n)) as [[e c]|] eqn:En; inversion Es; subst; rewrite En.
-    + rewrite dispatch_eq. apply check_fire_ok. exact HL'.
-    + reflexivity.
-  - cbn [sys_step] in Es. inversion Es; subst. cbn [o_fire].
-    apply check_round_ok; [|exact HL'].
-    intros c. rewrite count_ct_map. change (count_fires c (cron (s_sm s'))) with (cron_count c (s_sm s')).
-    apply (inv_count_exact _ _ _ c HI').
+  induction ops as [|o ops IH]; intros s st pend dirty stopped HR HP; [reflexivity|].
+  cbn [run_from]. pose proof (step_rel i s st o HR) as HR'. pose proof (step_ch i s o) as HC.
+  pose proof (step_sm_links i s o) as HS.
+  destruct (sys_step i s o) as [s' f] eqn:Es. cbn [fst] in HR', HC, HS.
+  cbn [P_from]. pose proof HR' as [HI' HL'].
+  rewrite (check_cron_observe _ _ _ _ HI'), orb_true_r, ?o_cron_observe, ?o_fire_observe. cbn [andb].
+  destruct o as [c id|c id|h|h|c|n| |ns| |].
+  - cbn [andb]. apply IH; [exact HR' | now rewrite HC].
+  - cbn [andb]. apply IH; [exact HR' | now rewrite HC].
+  - cbn [andb]. apply IH; [exact HR' | now rewrite HC].
+  - cbn [andb]. apply IH; [exact HR' | now rewrite HC].
+  - (* OFire *)
+    cbn [sys_step] in Es. inversion Es; subst. cbn [fst snd].
+    rewrite (check_fire_ok _ _ _ _ HL'). cbn [andb]. apply IH; [exact HR' | exact HP].
+  - (* OTick *)
+    destruct HS as [S1 S2]. rewrite S1. cbn [sys_step] in Es.
+    destruct (nth_error (cron (s_sm s)) (N.to_nat n)) as [[e c]|] eqn:En.
+    + destruct (ch_drain_all (s_ch s)) as [r k] eqn:D. inversion Es; subst s' f. cbn [fst snd] in *.
+      destruct (ch_drain_all_spec _ _ _ D) as [Hr Hk]. cbn [with_ch s_links] in *.
+      assert (Hnext : P_from i (spec_step (i_hooks i) st (OTick n)) [] false stopped ops
+                        (run_from i (with_ch s k) ops) = true).
+      { apply IH; [exact HR'|]. cbn [with_ch s_ch]. subst k. constructor. }
+      rewrite Hnext, andb_true_r. apply orb_true_iff. right.
+      destruct pend as [|x pend].
+      * apply perm_nil_l in HP. rewrite HP in Hr. apply perm_nil_r in Hr. subst r.
+        cbn [app]. rewrite tick_all_single. apply check_fire_ok. exact HL'.
+      * rewrite (check_burst_ok ((x :: pend) ++ [c]) (r ++ [c]) _ _ _); [apply orb_true_r | | exact HL'].
+        apply Permutation_app_tail. eapply Permutation_trans; [exact HP | apply Permutation_sym, Hr].
+    + inversion Es; subst s' f. cbn [fst snd is_nil andb]. apply IH; [exact HR' | exact HP].
+  - (* OTickAll *)
+    destruct HS as [S1 S2]. rewrite S1. cbn [sys_step] in Es.
+    destruct (ch_drain_all (s_ch s)) as [r k] eqn:D. inversion Es; subst s' f. cbn [fst snd] in *.
+    destruct (ch_drain_all_spec _ _ _ D) as [Hr Hk]. cbn [with_ch s_links s_sm] in *.
+    assert (Hnext : P_from i (spec_step (i_hooks i) st OTickAll) [] false stopped ops
+                      (run_from i (with_ch s k) ops) = true).
+    { apply IH; [exact HR'|]. cbn [with_ch s_ch]. subst k. constructor. }
+    rewrite Hnext, andb_true_r. apply orb_true_iff. right.
+    destruct pend as [|x pend].
+    + apply perm_nil_l in HP. rewrite HP in Hr. apply perm_nil_r in Hr. subst r. cbn [app].
+      apply check_round_ok; [|exact HL'].
+      intros c. rewrite count_ct_map. change (count_fires c (cron (s_sm s))) with (cron_count c (s_sm s)).
+      apply (inv_count_exact _ _ _ c HI').
+    + rewrite (check_burst_ok ((x :: pend) ++ map snd (cron (s_sm s))) (r ++ map snd (cron (s_sm s))) _ _ _);
+        [apply orb_true_r | | exact HL'].
+      apply Permutation_app_tail. eapply Permutation_trans; [exact HP | apply Permutation_sym, Hr].
+  - (* OStart *)
+    destruct HS as [S1 S2]. rewrite S1. cbn [andb]. apply IH; [exact HR'|].
+    rewrite HC, fired_of_strings. apply Permutation_sym.
+    eapply Permutation_trans; [apply ch_start_pending|]. apply Permutation_app_tail, Permutation_sym, HP.
+  - (* ODrain *)
+    cbn [sys_step] in Es.
+    destruct (ch_drain_all (s_ch s)) as [r k] eqn:D. inversion Es; subst s' f. cbn [fst snd] in *.
+    destruct (ch_drain_all_spec _ _ _ D) as [Hr Hk]. cbn [with_ch s_links] in *.
+    assert (Hnext : P_from i (spec_step (i_hooks i) st ODrain) [] false stopped ops
+                      (run_from i (with_ch s k) ops) = true).
+    { apply IH; [exact HR'|]. cbn [with_ch s_ch]. subst k. constructor. }
+    rewrite Hnext, andb_true_r. apply orb_true_iff. right.
+    rewrite (check_burst_ok pend r _ _ _); [apply orb_true_r | | exact HL'].
+    eapply Permutation_trans; [exact HP | apply Permutation_sym, Hr].
+  - (* OStop *)
+    cbn [andb]. apply IH; [exact HR' | now rewrite HC].
 Qed.
 
 Lemma P_holds i : P i (run_model i) = true.
 Proof.
-  unfold P, run_model. apply P_from_holds. split.
+  unfold P, run_model. apply P_from_holds; [split|].
   - apply Inv_init.
   - apply links_ok_init.
+  - constructor.
 Qed.
 
 (* the system's manager state is the manager run on the induced add/remove history *)
@@ -840,10 +1119,13 @@ Lemma sys_sm_induced i : forall ops s,
 Proof.
   induction ops as [|o ops IH]; intros s; [reflexivity|].
   cbn [fold_left flat_map]. rewrite fold_left_app, IH. f_equal.
-  destruct o as [c id|c id|h|h|c|n|]; cbn [sys_step induced fst s_sm fold_left sm_step]; try reflexivity.
-  - rewrite enable_split. reflexivity.
-  - rewrite (disable_split (valid_of (i_invalid i))). reflexivity.
-  - destruct (nth_error (cron (s_sm s)) (N.to_nat n)) as [[e c]|]; reflexivity.
+  pose proof (step_sm_links i s o) as HS.
+  destruct o as [c id|c id|h|h|c|n| |ns| |]; cbn [induced fold_left sm_step].
+  5-10: destruct HS as [S1 _]; exact S1.
+  - reflexivity.
+  - reflexivity.
+  - cbn [sys_step]. rewrite enable_split. reflexivity.
+  - cbn [sys_step]. rewrite (disable_split (valid_of (i_invalid i))). reflexivity.
 Qed.
 
 (* the registry is "added and not removed since": what one more operation does to it *)
@@ -950,4 +1232,93 @@ Proof.
   eapply Permutation_trans; [apply Permutation_map, Hp|].
   unfold expected_round. destruct (nth h (snd st) false); [|constructor].
   rewrite map_map. apply Permutation_refl.
+Qed.
+
+(* ------------------------------------------------------------------ coinciding firings, end to end *)
+
+Lemma flat_map_nil_fun A B (l : list A) : flat_map (fun _ : A => @nil B) l = [].
+Proof. induction l as [|x l IH]; [reflexivity | exact IH]. Qed.
+
+(* after ANY sequence of operations: the jobs of the crontabs [cs] (any strings, any
+   multiplicities) are started together and reach their send in any order [cs'] while
+   the consumer is busy; then the consumer catches up, the runtime waking the parked
+   senders in any order [picks].  Hook h gets, for every firing that was already waiting
+   and for every job started now, exactly one task for each of its enabled bindings with
+   that crontab, carrying that binding's data - a crontab that fired twice gives two -
+   and no other task. *)
+Lemma burst_tasks i ops h cs cs' picks :
+  let s := fold_left (fun s o => fst (sys_step i s o)) ops (sys_init i) in
+  let st := fold_left (spec_step (i_hooks i)) ops (spec_init (i_hooks i)) in
+  let bs := nth h (i_hooks i) [] in
+  NoDup (map b_id bs) -> Permutation cs cs' ->
+  let received := fst (ch_drain_with picks (ch_start cs' (s_ch s))) in
+  Permutation received (ch_pending (s_ch s) ++ cs)
+  /\ snd (ch_drain_with picks (ch_start cs' (s_ch s))) = ch_empty
+  /\ Permutation
+       (map (task_of_info (N.of_nat h)) (snd (tick_hook received (nth h (s_links s) []))))
+       (if nth h (snd st) false
+        then flat_map (fun c => map (task_of_binding (N.of_nat h)) (filter (fun b => ct_eqb (b_crontab b) c) bs))
+                      (ch_pending (s_ch s) ++ cs)
+        else []).
+Proof.
+  cbv zeta. intros Hn Hp.
+  destruct (rel_fold i ops _ _ (rel_init i)) as [HI HL].
+  rewrite (links_ok_nth _ _ _ _ HL Hn).
+  set (s := fold_left (fun s o => fst (sys_step i s o)) ops (sys_init i)) in *.
+  set (st := fold_left (spec_step (i_hooks i)) ops (spec_init (i_hooks i))) in *.
+  destruct (concurrent_all_delivered picks cs cs' (s_ch s) Hp) as [Hr Hk].
+  split; [exact Hr|]. split; [exact Hk|].
+  destruct (tick_hook_burst (nth h (i_hooks i) []) (nth h (snd st) false) _ _ (Permutation_sym Hr)) as [Hq _].
+  eapply Permutation_trans; [apply Permutation_map, Hq|].
+  unfold expected_burst, expected_infos. destruct (nth h (snd st) false).
+  - rewrite <- flat_map_map_commute.
+    rewrite (flat_map_ext _ (fun c => map (task_of_binding (N.of_nat h))
+                                      (filter (fun b => ct_eqb (b_crontab b) c) (nth h (i_hooks i) [])))).
+    + apply Permutation_refl.
+    + intros c. rewrite map_map. reflexivity.
+  - rewrite flat_map_nil_fun. constructor.
+Qed.
+
+(* in every reachable state the buffer holds at most ch_cap values *)
+Lemma reach_buf_le i : forall ops s, (length (buf (s_ch s)) <= ch_cap)%nat ->
+  (length (buf (s_ch (fold_left (fun s o => fst (sys_step i s o)) ops s))) <= ch_cap)%nat.
+Proof.
+  induction ops as [|o ops IH]; intros s H; [exact H|]. cbn [fold_left]. apply IH.
+  rewrite step_ch.
+  assert (Hd : (length (buf (snd (ch_drain_all (s_ch s)))) <= ch_cap)%nat).
+  { destruct (ch_drain_all (s_ch s)) as [r k] eqn:D. destruct (ch_drain_all_spec _ _ _ D) as [_ ->]. cbn. lia. }
+  destruct o as [c id|c id|h|h|c|n| |ns| |]; try exact H; try exact Hd.
+  - destruct (nth_error (cron (s_sm s)) (N.to_nat n)); [exact Hd | exact H].
+  - destruct (ch_start_lengths (fired_strings (cron (s_sm s)) ns) (s_ch s) H) as [E _]. rewrite E. apply Nat.le_min_l.
+Qed.
+
+Lemma sends_block i ops cs :
+  let k := s_ch (fold_left (fun s o => fst (sys_step i s o)) ops (sys_init i)) in
+  length (buf (ch_start cs k)) = Nat.min ch_cap (length (buf k) + length cs)
+  /\ (length (buf (ch_start cs k)) + length (parked (ch_start cs k)) = length (buf k) + length (parked k) + length cs)%nat.
+Proof.
+  cbv zeta. apply ch_start_lengths. apply reach_buf_le. cbn. lia.
+Qed.
+
+(* no step looks at the cancelled context: sm.Stop() changes nothing of what the manager,
+   the controllers, the channel and the jobs do *)
+Lemma stop_is_not_looked_at i s o b :
+  let s2 := mkSys (s_links s) (s_sm s) (s_ch s) b in
+  snd (sys_step i s2 o) = snd (sys_step i s o)
+  /\ s_links (fst (sys_step i s2 o)) = s_links (fst (sys_step i s o))
+  /\ s_sm (fst (sys_step i s2 o)) = s_sm (fst (sys_step i s o))
+  /\ s_ch (fst (sys_step i s2 o)) = s_ch (fst (sys_step i s o)).
+Proof.
+  cbv zeta. destruct o as [c id|c id|h|h|c|n| |ns| |]; cbn [sys_step s_links s_sm s_ch s_stopped with_ch].
+  - repeat split.
+  - repeat split.
+  - destruct (enable _ _ _) as [m s']. repeat split.
+  - destruct (disable _ _) as [m s']. repeat split.
+  - repeat split.
+  - destruct (nth_error (cron (s_sm s)) (N.to_nat n)) as [[e c]|]; [|repeat split].
+    destruct (ch_drain_all (s_ch s)) as [r k]. repeat split.
+  - destruct (ch_drain_all (s_ch s)) as [r k]. repeat split.
+  - repeat split.
+  - destruct (ch_drain_all (s_ch s)) as [r k]. repeat split.
+  - repeat split.
 Qed.
